@@ -314,4 +314,27 @@ def GenWF (s : List Nat) : Prop := ∃ its, Parse s its ∧ tailOK 0 its = true
 /-- `SafeAdjacent s`: no two tokens that `removeWhitespace` brings together merge. -/
 def SafeAdjacent (s : List Nat) : Prop := ∀ its, Parse s its → safeAdjacent its = true
 
+/-! ### Concatenation with raw JavaScript (the `.inc.js` path of `WritePkgCode`)
+
+  `WritePkgCode` writes, per `.inc.js` file, `rw(head) ++ raw ++ rw(tail)` where `raw` is esbuild's output (NOT in the
+  item language: it may contain `//` comments, regex and template literals) and `head`/`tail` are generated wrapper
+  strings. `rw_tokens` speaks about `head` and `tail` separately (each must be `GenWF` on its own). For the
+  concatenation one more condition is needed: `rw` removes the leading line break of `tail`, so `raw` must not end
+  inside a line comment. -/
+
+/-- the bytes after the last line terminator -/
+def lastLine (s : List Nat) : List Nat := (s.reverse.takeWhile fun c => c != 10 && c != 13).reverse
+
+def hasSlashSlash : List Nat → Bool
+  | [] => false
+  | c :: r => (c == 47 && r.head? == some 47) || hasSlashSlash r
+
+/-- conservative: `raw` ends with a line terminator, or its last line contains no `//` at all -/
+def rawEndsOutsideLineComment (raw : List Nat) : Bool :=
+  raw.isEmpty || raw.getLast? == some 10 || raw.getLast? == some 13 || !hasSlashSlash (lastLine raw)
+
+/-- precondition for appending the whitespace-stripped segment `nextOut` directly after the raw segment `raw` -/
+def junctionSafe (raw nextOut : List Nat) : Bool :=
+  rawEndsOutsideLineComment raw || nextOut.head? == some 10 || nextOut.head? == some 13
+
 end GV.JsTokens
